@@ -132,8 +132,12 @@ class Bounds:
         if isinstance(e, ast.Call) and isinstance(e.func, ast.Name) and e.func.id == 'int' and e.args and isinstance(e.args[0], ast.Name):
             return INF
         if isinstance(e, ast.Subscript):
-            # element of a list whose elements are all guarded (components[0])
+            # element of a list: the largest thing ever appended to it (each judged where it is appended), or the guard on
+            # the list as a whole (components[0])
             if isinstance(e.value, ast.Name):
+                apps = [c for c in walk_no_nested(self.fi.node) if isinstance(c, ast.Call) and isinstance(c.func, ast.Attribute) and c.func.attr == 'append' and isinstance(c.func.value, ast.Name) and c.func.value.id == e.value.id and c.args]
+                if apps:
+                    return max(self.ub(c.args[0], c, depth + 1) for c in apps)
                 return self.guard_ub(e.value.id, at)
             return INF
         return INF
@@ -296,6 +300,43 @@ def check(model: Model, run: Run) -> None:
                     )
     if n_lab < 2:
         run.cannot('only %d label insertion sites found' % n_lab)
+
+    # ------------------------------------------------------------------ R3c values keep their place
+    run.rule(
+        'C18.R3c',
+        'a number typed by the operator is carried as written or refused, never folded into something else: where a parser '
+        'assembles (high << k) + low, low is bounded below 2^k by a dominating guard; where it hands a number to a factory that '
+        'keeps only the low bits (PathInfo.make_from_integer: 32), the number is bounded accordingly',
+        floor=2,
+    )
+    MASKING = {'PathInfo.make_from_integer': (0, 32)}
+    n3c = 0
+    for fi in parsers:
+        bd = Bounds(model, folder, fi)
+        for e in walk_no_nested(fi.node):
+            if isinstance(e, ast.BinOp) and isinstance(e.op, (ast.Add, ast.BitOr)) and isinstance(e.left, ast.BinOp) and isinstance(e.left.op, ast.LShift):
+                k = folder.fold(e.left.right, fi.module, fi.cls)
+                if not isinstance(k, int):
+                    continue
+                n3c += 1
+                u = bd.ub(e.right, e)
+                run.check(u <= (1 << k) - 1, fi.qualname, 'low part of (x << %d) + y bounded by %s' % (k, 'nothing' if u is INF else int(u)), fi.loc(e), 'the low part can exceed %d bits (it is only bounded by %s): it carries into the high part and the value sent differs from the one written (community 1:65536 goes out as 2:0)' % (k, 'nothing' if u is INF else int(u)))
+            if isinstance(e, ast.Call):
+                for suf, (argi, bits) in MASKING.items():
+                    if model.call_matches(fi.module, e, suf) and len(e.args) > argi:
+                        n3c += 1
+                        a = e.args[argi]
+                        if isinstance(a, ast.Call) and dotted(a.func) == 'int' and a.args:
+                            # int(<token>): bounded only by a guard on a variable holding the same conversion
+                            u = INF
+                        else:
+                            u = bd.ub(a, e)
+                        run.check(u <= (1 << bits) - 1, fi.qualname, '%s receives a value bounded by %s' % (suf, 'nothing' if u is INF else int(u)), fi.loc(e), '%s keeps the low %d bits of what it is given: a larger number is accepted and silently becomes another one (path-information 4294967296 is sent as 0.0.0.0)' % (suf, bits))
+    if n3c < 2:
+        run.cannot('only %d value-assembling sites found in the parsers' % n3c)
+    # the factory really masks (the table above stays in step with the code)
+    mk = model.func('exabgp.bgp.message.update.nlri.qualifier.path.PathInfo.make_from_integer')
+    run.check(any(isinstance(x, ast.BinOp) and isinstance(x.op, ast.BitAnd) and folder.fold(x.right, mk.module, mk.cls) == 0xFF for x in ast.walk(mk.node)), mk.qualname, 'keeps 4 x 8 bits of its argument', mk.loc(), 'masking factory table out of date')
 
     # ------------------------------------------------------------------ R4 shared validity check, 4-byte ASNs
     run.rule('C18.R4', 'validate_announce_nlri is used both at parse time (API route handlers) and at encode time (messages()); ASN.from_string accepts 0..2^32-1; AS paths built from text are 4 bytes wide', floor=4)
